@@ -768,7 +768,7 @@ def main(ctx):
                 for im in (True, False):
                     yield ("compare", fields, shape, cseed, variant, p, im)
 
-    ctx.lattice("compare", base_units(F7, ctx.pick(2, 3), ctx.pick(2, 3)), one_compare, expand=expand_compare,
+    ctx.lattice("compare", base_units(F7, ctx.pick(2, 3), ctx.pick(2, 3)), one_compare, wstrict=True, expand=expand_compare,
                 bounds=dict(alphabet=F7, max_fields=ctx.pick(2, 3),
                             variants=["same", "reversed", "extra-in-second", "missing-in-second", "sub-array-shape"],
                             perturbation="every single element of every compared field"))
